@@ -132,18 +132,6 @@ func (idx *IndexWriter) WriteToBoltDatabase(db *bbolt.DB) error {
 		return err
 	}
 
-	if err := bucket.Put(keySchema, buf.Bytes()); err != nil {
-		return err
-	}
-
-	var rowIDbuf [4]byte
-
-	binary.BigEndian.PutUint32(rowIDbuf[:], idx.nextRowID)
-
-	if err := bucket.Put(keyNextRowID, rowIDbuf[:]); err != nil {
-		return err
-	}
-
 	i := 0
 
 	for k, v := range idx.values {
@@ -174,6 +162,21 @@ func (idx *IndexWriter) WriteToBoltDatabase(db *bbolt.DB) error {
 
 			bucket = tx.Bucket([]byte("data"))
 		}
+	}
+
+	// The header (schema and row counter) is written in the last transaction: a file
+	// whose creation was interrupted after an earlier batch has no header and is
+	// rejected by OpenIndex instead of being accepted with bitmaps missing.
+	if err := bucket.Put(keySchema, buf.Bytes()); err != nil {
+		return err
+	}
+
+	var rowIDbuf [4]byte
+
+	binary.BigEndian.PutUint32(rowIDbuf[:], idx.nextRowID)
+
+	if err := bucket.Put(keyNextRowID, rowIDbuf[:]); err != nil {
+		return err
 	}
 
 	if err := tx.Commit(); err != nil {
